@@ -3,7 +3,7 @@ from . import common as C, storage_io as S
 
 MODULE = "AcqVerif.Props.C16"
 DRIVERS = ["acq_storage"]
-THEOREMS = ["AcqVerif.C16.C16_total", "AcqVerif.C16.C16_file_write_bounded", "AcqVerif.C16.C16_owned_descriptors_only", "AcqVerif.C16.C16_every_prefix_disciplined", "AcqVerif.C16.ownRun_call_owned", "AcqVerif.C16.C16_never_started", "AcqVerif.C16.C16_failure_is_reported"]
+THEOREMS = ["AcqVerif.C16.C16_total", "AcqVerif.C16.C16_file_write_bounded", "AcqVerif.C16.C16_owned_descriptors_only", "AcqVerif.C16.C16_every_prefix_disciplined", "AcqVerif.C16.ownRun_call_owned", "AcqVerif.C16.C16_never_started", "AcqVerif.C16.C16_failure_is_reported", "AcqVerif.C16.C16_write_failure_is_reported"]
 ORACLES = {"unowned-pwrite", "unowned-close", "unowned-flock", "descriptor-leak", "unreported-write-failure"}
 INTERESTING = ("fw.fail", "fw.zero3", "open.fail", "flock.fail", "close.fail", "mkdir.fail", "fw.short", "fw.zero")
 
@@ -50,7 +50,8 @@ def run(ctx):
                "(c) the corpus. Non-trivial = the model took at least one fault branch (failed/short/zero write, failed "
                "open/flock/close/mkdir); distinct = distinct (kind, branch set, history shape, fault script)."
                % (len(S.base_histories("raw")), n_ex, nrand))
-    ctx.cov["exhaustive"] = "fault index x fault kind of the base histories (not the histories themselves)"
+    ctx.cov["exhaustive"] = False   # exhaustive over (fault index x fault kind) of the base histories only
+    ctx.cov["exhaustive_fault_cases"] = n_ex
     ctx.assumptions += S.ASSUMPTIONS
 
 
